@@ -44,6 +44,7 @@ type C03Op struct {
 	// cut), "grow" creates below.nx.sq.test. in the zone, "below" asks it.
 	Cut string `json:"cut,omitempty"`
 	Sub int    `json:"sub,omitempty"` // 1-based index into c03Subnets: the client-subnet option the query carries
+	Pre bool   `json:"pre,omitempty"` // a COOKIE option precedes the client-subnet option in the OPT record
 }
 
 type C03Scenario struct {
@@ -51,6 +52,9 @@ type C03Scenario struct {
 	// ECS: "" = client-subnet forwarding off; otherwise forwarding is on (ceilings /24, /56) and
 	// the test zone declares a scope: "same" (= source length), "fixed24", "wider" (source-8), "zero".
 	ECS string `json:"ecs,omitempty"`
+	// Prefetch threshold (percent); with ECS on, a shared entry refreshed in the background must
+	// stay shared whoever's hit triggered the refresh.
+	Prefetch uint32 `json:"prefetch,omitempty"`
 	Ops      []C03Op `json:"ops"`
 }
 
@@ -188,6 +192,20 @@ func genC03(r *kit.RNG) *C03Scenario {
 		}
 		sc.Ops = append(sc.Ops, op)
 	}
+	if sc.ECS != "" && sc.ECS != "zero" && r.Chance(0.5) {
+		// prefetch recipe: a question answered for everyone (asked without a subnet) ages into its
+		// prefetch window; the hit that triggers the background refresh comes from a client with
+		// a subnet option (after another option in its OPT); the refreshed entry is still
+		// everyone's, so the next client without a subnet must not get that client's answer
+		sc.Prefetch = kit.Pick(r, []uint32{50, 50, 80})
+		ls := kit.Pick(r, bases)
+		qt := kit.Pick(r, []uint16{dns.TypeA, dns.TypeTXT})
+		sub := 1 + r.Intn(len(c03Subnets))
+		sc.Ops = append(sc.Ops, C03Op{GapMs: 500, Labels: ls, Type: qt, Wire: r.Chance(0.5)},
+			C03Op{GapMs: kit.Pick(r, []int{200000, 250000}), Labels: ls, Type: qt, Wire: r.Chance(0.5), Sub: sub, Pre: r.Chance(0.7)},
+			C03Op{GapMs: 3000, Labels: ls, Type: qt, Wire: r.Chance(0.5)},
+			C03Op{GapMs: 1000, Labels: ls, Type: qt, Wire: r.Chance(0.5), Sub: sub})
+	}
 	if r.Chance(0.35) {
 		// a validated denial cached under CD=0 must not answer the CD=1 partition
 		at := r.Intn(len(sc.Ops) + 1)
@@ -300,6 +318,7 @@ func c03Run(sc *C03Scenario, tr *kit.Trace, res *kit.Result) {
 	if sc.ECS != "" {
 		spec.Cfg.ECS = &config.ECSConfig{Enabled: true}
 	}
+	spec.Cfg.Prefetch = sc.Prefetch
 	made := map[string]c03Made{} // answer data -> the question and audience it was produced for
 	g, err := world.NewIng(spec, world.IngSpec{Workers: 32, Queue: 32, Sockets: 1, Spare: 32}, 3, tr)
 	if err != nil {
@@ -423,6 +442,9 @@ func c03Run(sc *C03Scenario, tr *kit.Trace, res *kit.Result) {
 				fam = 2
 			}
 			o := q.IsEdns0()
+			if op.Pre {
+				o.Option = append(o.Option, &dns.EDNS0_COOKIE{Code: dns.EDNS0COOKIE, Cookie: "0123456789abcdef"})
+			}
 			o.Option = append(o.Option, &dns.EDNS0_SUBNET{Code: dns.EDNS0SUBNET, Family: fam, SourceNetmask: uint8(c03Subnets[op.Sub-1].bits), Address: a.AsSlice()})
 		}
 		upBefore := upstream[ident]
@@ -457,7 +479,15 @@ func c03Run(sc *C03Scenario, tr *kit.Trace, res *kit.Result) {
 			tr.Add("op %d %s %q/%s cd=%v: no reply", i, ingress, text, dns.TypeToString[op.Type], op.CD)
 			continue
 		}
-		tr.Add("op %d %s %q/%s cd=%v -> %s an=%d fetched=%v", i, ingress, text, dns.TypeToString[op.Type], op.CD, dns.RcodeToString[reply.Rcode], len(reply.Answer), fetched)
+		audNote := ""
+		if sc.ECS != "" && len(reply.Answer) == 1 {
+			if t, ok := reply.Answer[0].(*dns.TXT); ok {
+				if j := strings.Index(strings.Join(t.Txt, ""), " aud="); j >= 0 {
+					audNote = strings.Join(t.Txt, "")[j:]
+				}
+			}
+		}
+		tr.Add("op %d %s %q/%s cd=%v sub=%d -> %s an=%d fetched=%v%s", i, ingress, text, dns.TypeToString[op.Type], op.CD, op.Sub, dns.RcodeToString[reply.Rcode], len(reply.Answer), fetched, audNote)
 		tr.Shape(fmt.Sprintf("%d:%d:%v:%s:%v:%d", len(op.Labels), op.Type, op.CD, ingress, fetched, reply.Rcode))
 		if !fetched && len(asked) > 0 {
 			cachedSibling++
